@@ -13,10 +13,12 @@ import (
 // and one trailing pipe, split at pipes. Returns the cells (nil for a row with no cell at all).
 func splitCells(line []byte) [][]byte {
 	s, e := 0, len(line)
-	for s < e && (line[s] == ' ' || line[s] == '\t') {
+	// whitespace around a row: space, TAB and also CR/VT/FF (a CR in front of the line's LF, or a stray one, is
+	// not cell content; GFM trims "whitespace")
+	for s < e && vp.InSet(line[s], " \t\r\v\f") {
 		s++
 	}
-	for e > s && (line[e-1] == ' ' || line[e-1] == '\t') {
+	for e > s && vp.InSet(line[e-1], " \t\r\v\f") {
 		e--
 	}
 	if s < e && line[s] == '|' {
